@@ -49,3 +49,35 @@ Proof.
     rewrite E. rewrite xdiv_fin by lra. f_equal. field. lra.
   - rewrite rsum_scale. field. lra.
 Qed.
+
+
+Lemma filter_length_le {A} (f : A -> bool) l : (length (filter f l) <= length l)%nat.
+Proof. induction l as [|x l IH]; cbn; [lia|]. destruct (f x); cbn; lia. Qed.
+
+(* a frequency drawn by -m freq (and every np.nanmean of a masked membership vector) is a share in [0, 1] *)
+Lemma mamean_share (l : list (option bool)) : (exists b, In (Some b) l) ->
+  exists r, mamean XR l = Fin r /\ 0 <= r <= 1.
+Proof.
+  intros [b Hb]. unfold mamean. set (valid := filter is_some l).
+  assert (Hv : (0 < length valid)%nat).
+  { assert (In (Some b) valid) by (unfold valid; apply filter_In; split; [exact Hb | reflexivity]).
+    destruct valid; [destruct H | cbn; lia]. }
+  pose proof (filter_length_le is_some_true valid) as Hle.
+  set (a := length (filter is_some_true valid)) in *. set (n := length valid) in *.
+  assert (Hn : 0 < INR n) by (apply lt_0_INR; exact Hv).
+  exists (INR a / INR n). split.
+  - xr_unfold. rewrite <- !INR_IZR_INZ. rewrite (proj2 (Reqb_false (INR n) 0)) by lra. reflexivity.
+  - split.
+    + apply Rmult_le_pos; [apply pos_INR | left; apply Rinv_0_lt_compat; exact Hn].
+    + apply Rmult_le_reg_r with (INR n); [exact Hn|]. unfold Rdiv. rewrite Rmult_assoc, Rinv_l by lra.
+      rewrite Rmult_1_r, Rmult_1_l. apply le_INR. exact Hle.
+Qed.
+
+Theorem freq_line_in_unit_interval ivs v y : In y (freq_line XR ivs v) ->
+  (forall iv, In iv ivs -> exists x b, In x v /\ iv_within XR iv x = Some b) ->
+  exists r, y = Fin r /\ 0 <= r <= 1.
+Proof.
+  intros Hy Hv. unfold freq_line in Hy. apply in_map_iff in Hy. destruct Hy as [iv [<- Hiv]].
+  destruct (Hv iv Hiv) as [x [b [Hx Hb]]].
+  apply mamean_share. exists b. rewrite <- Hb. apply in_map. exact Hx.
+Qed.
